@@ -1,7 +1,7 @@
 ---- MODULE MC_WorkPull ----
 EXTENDS WorkPull
 View == core
-LiveView == <<wp, cc, life, c2p, p2c, fromP, fromC, env, bud.f>>
+LiveView == core
 Init1 == <<"w1">>
 Init2 == <<"w1", "w2">>
 ====
